@@ -2,7 +2,7 @@
    Local execution: Fail.v (the composite loop with raising children).  Any schedule of
    executor children: the Dag.v machine, where a child that raised is a child that never
    finishes.  Only Theorem / exact / Print Assumptions here. *)
-From PW Require Import Base Dag DagProofs Fail FailProofs.
+From PW Require Import Base Dag DagProofs Fail FailProofs Free FreeProofs.
 
 (* one run of one child whose function raises: it was not failed before, ends failed, keeps its
    outputs, is logged, and the only signal it announces is `failed` -- for every graph and state *)
@@ -56,3 +56,43 @@ Example C06_diamond :
   | _ => False
   end.
 Proof. vm_compute. repeat split; reflexivity. Qed.
+
+(* hand-wired flows WITHOUT a parent (signals delivered depth first by the nodes themselves), for every
+   wiring -- cycles through failure handlers included --, every state reached so far, every fuel: a run that
+   returns normally to its caller called no function that raised and triggered no node that refused; a run
+   that ends with a user exception names a node whose function raised IN THIS RUN; a refusal names a node
+   that refused in this run; and the invariant of C06_child_contained (completion signals only from nodes whose
+   function returned, `failed` only from nodes whose function raised, failed flags only on nodes that
+   raised) holds afterwards *)
+Theorem C06_free_run_reported : forall g fuel s n s' r, FailProofs.Inv s -> fexec g fuel s n = (s', r) ->
+  FailProofs.Inv s' /\ exists l : list logev, Fail.log s' = (Fail.log s ++ l)%list /\
+    (r = FOk -> forall m, ~ In (LRaise m) l /\ ~ In (LRefuse m) l) /\
+    (forall m, r = FExc m -> In (LRaise m) l) /\
+    (forall m, r = FReady m -> In (LRefuse m) l).
+Proof. exact fexec_good. Qed.
+Print Assumptions C06_free_run_reported.
+
+(* the caller's whole session (every starting node run in turn on the same objects): if every run returned
+   normally then nothing raised and nothing refused in the whole history *)
+Theorem C06_free_session_reported : forall g fuel starting s s' xs, FailProofs.Inv s ->
+  fruns g fuel s starting = (s', xs) ->
+  FailProofs.Inv s' /\ List.length xs = List.length starting /\
+  (Forall (fun x => x = FOk) xs -> exists l : list logev, Fail.log s' = (Fail.log s ++ l)%list /\ forall m, ~ In (LRaise m) l /\ ~ In (LRefuse m) l).
+Proof. exact fruns_reported. Qed.
+Print Assumptions C06_free_session_reported.
+
+(* non-vacuity: n0 >> n1 >> n2, n1 raises, its failure handler n3 runs; n4 waits for n0 AND n1: the caller of
+   n0.run() gets n1's exception, n2 and n4 never run, n0 is not marked failed *)
+Example C06_free_chain :
+  let c x := {| fi_init := Some x; fi_conns := [] |} in
+  let g := [ {| f_kind := KChk 1; f_ins := [c 1%Z]; f_sig := [(ORan, [(1, IRun); (4, IAcc)])] |};
+             {| f_kind := KChk 1; f_ins := [c (-1)%Z]; f_sig := [(ORan, [(2, IRun); (4, IAcc)]); (OFailed, [(3, IRun)])] |};
+             {| f_kind := KChk 1; f_ins := [c 1%Z]; f_sig := [] |};
+             {| f_kind := KChk 1; f_ins := [c 1%Z]; f_sig := [] |};
+             {| f_kind := KChk 1; f_ins := [c 1%Z]; f_sig := [] |} ] in
+  match fruns g 50 (init_state g) [0] with
+  | (s, xs) => xs = [FExc 1] /\ Fail.log s = [LOk 0; LRaise 1; LOk 3] /\ failedv s = [false; true; false; false; false]
+               /\ nth 1 (outv s) None = None
+  end.
+Proof. vm_compute. repeat split; reflexivity. Qed.
+
